@@ -190,7 +190,8 @@ pub fn rows(tier: vcore::Tier) -> Vec<DPlan> {
     for action in Action::ALL {
         for side in Side::BOTH {
             if action.datagram() {
-                for payload in [0usize, 1, 1200] {
+                // (datagram size; 1000 fits the initial MTU of 1200 whatever MTU discovery has found)
+                for payload in [0usize, 1, 1000] {
                     v.push(DPlan::Idle { action, kind: Kind::NoStream, payload, side });
                 }
                 continue;
@@ -648,7 +649,7 @@ async fn run_idle(d: &D, action: Action, kind: Kind, payload: usize, s_side: Sid
     let tx0;
 
     if action.datagram() {
-        let size = payload.min(sc.max_datagram_size().unwrap_or(0));
+        let size = payload;
         let data: Vec<u8> = (0..size as u64).map(|i| byte_at(0xD1D1, i)).collect();
         let want = data.clone();
         let c = pc.clone();
